@@ -494,6 +494,11 @@ func c17CheckGraph(chains []scalibrfs.FS, lay c17Layout, states []int, depth int
 // c17ReqCopies is the number of copies of its graph that a replayed "graphreq" case holds.
 const c17ReqCopies = 12
 
+// c17ReqBallast chains e0 -> e1 -> e2 -> e3 (a file) accompany the copies in a replayed image.
+const c17ReqBallast = 8
+
+var c17BallastStates = []int{stLinkBase + 2*1 + 1, stLinkBase + 2*2 + 1, stLinkBase + 2*3, stFile}
+
 // c17Required lists what the requirer of the "graphreq" leg names for one graph: every
 // symlink entry and the link inside every directory entry (so that no directory is emptied),
 // in the absolute spelling for even entries and the relative one for odd entries. No regular
@@ -777,6 +782,14 @@ func propC17Req(col *ev.Collector, cs c17Case, states []int) (ev.Outcome, error)
 		a, b := c17GraphLayers(lays[k], states)
 		l0, l1 = append(l0, a...), append(l1, b...)
 		required = append(required, c17Required(lays[k], states)...)
+	}
+	// ... next to a few listed chains of three links (in a batch, the other graphs of the image
+	// play this part): what is retained for one listed link must not depend on the others
+	for k := 0; k < c17ReqBallast; k++ {
+		lay := c17Layout{pool: cs.Pool, prefix: fmt.Sprintf("b%d", k), salt: 1}
+		a, b := c17GraphLayers(lay, c17BallastStates)
+		l0, l1 = append(l0, a...), append(l1, b...)
+		required = append(required, c17Required(lay, c17BallastStates)...)
 	}
 	ld, err := loadImage(c17WithHistory(c17Image(l0, l1), cs.Hist), require.NewFileRequirerPaths(required), cs.Depth)
 	defer ld.Close()
